@@ -65,8 +65,16 @@ def xor_keystream(xe):
                     return srcs[0][1]
             return a
         sides = list(zip(tgt.elts, [dr(a) for a in it.args]))
+
+        def key_attr(a):
+            """self.<key attribute>, directly or through a plain local copy (an inlined helper's parameter)"""
+            if isinstance(a, ast.Name):
+                srcs = value_sources(xe, a, None)
+                if len(srcs) == 1 and srcs[0][0] == "expr":
+                    a = srcs[0][1]
+            return isinstance(a, ast.Attribute) and isinstance(a.value, ast.Name) and a.value.id == xe.self_name
         key_side = [(v, a) for v, a in sides if isinstance(a, ast.Call) and ast.unparse(a.func).endswith("cycle") and len(a.args) == 1
-                    and isinstance(a.args[0], ast.Attribute) and isinstance(a.args[0].value, ast.Name) and a.args[0].value.id == xe.self_name]
+                    and key_attr(a.args[0])]
         if len(key_side) != 1:
             if any(isinstance(a, ast.Attribute) and isinstance(a.value, ast.Name) and a.value.id == xe.self_name for _, a in sides):
                 why = "the key is zipped with the data without cycle(): zip stops at the shorter one, only len(key) bytes are processed"
@@ -338,6 +346,10 @@ def check(ctx):
     ctx.ob("xor.keystream", xe, "for i, c in zip(range(len(buf)), cycle(key)): buf[i] ^= c", xor_ok, why)
     for r in returns_of(an, xe):
         v = r.ast.value
+        if isinstance(v, ast.Name):
+            srcs_ = value_sources(xe, v, r)
+            if len(srcs_) == 1 and srcs_[0][0] == "expr":
+                v = srcs_[0][1]         # the result under the local name of an inlined helper
         okr = isinstance(v, ast.Call) and ast.unparse(v.func) == "bytes" and len(v.args) == 1 or (v is not None and v is xor_bigint(xe))
         ctx.ob("xor.returns-buffer", xe, r.ast, okr, "returns the transformed buffer" if okr else "XorProvider.encrypt does not return the transformed buffer", node=r)
 
